@@ -602,7 +602,7 @@ func c07BackupDiscipline(w *World, r *Report) {
 // "*/"), the search for the terminator must start after the whole opener.
 // ---------------------------------------------------------------------
 
-func c08CommentSearchStart(w *World, r *Report) {
+func c08CommentSearchStart(w *World, r *Report, rule string) {
 	li := &lexInv{w: w,
 		fPos: w.Field("parse", "lexer", "pos"), fStart: w.Field("parse", "lexer", "start"),
 		fWidth: w.Field("parse", "lexer", "width"), fIn: w.Field("parse", "lexer", "input")}
@@ -652,11 +652,11 @@ func c08CommentSearchStart(w *World, r *Report) {
 					}
 				}
 				if overlap == 0 {
-					r.OK("R08.10", what, c.Pos(), "opener and terminator share no characters: any start within the opener finds the same terminator")
+					r.OK(rule, what, c.Pos(), "opener and terminator share no characters: any start within the opener finds the same terminator")
 					continue
 				}
 				if !li.isRestSlice(c.Call.Args[0]) {
-					r.Fail("R08.10", what, c.Pos(), "the text searched is not input[pos:]: start of the search relative to the opener not determined")
+					r.Fail(rule, what, c.Pos(), "the text searched is not input[pos:]: start of the search relative to the opener not determined")
 					continue
 				}
 				// constant advances of pos that precede the search on every path
@@ -688,7 +688,7 @@ func c08CommentSearchStart(w *World, r *Report) {
 						}
 					}
 				}
-				r.Check(skipped >= int64(len(opener)), "R08.10", what, c.Pos(), fmt.Sprintf("search starts %d bytes after the start of the opener", skipped),
+				r.Check(skipped >= int64(len(opener)), rule, what, c.Pos(), fmt.Sprintf("search starts %d bytes after the start of the opener", skipped),
 					fmt.Sprintf("the search starts %d bytes into the %d-byte opener whose tail %q is the head of the terminator: a comment that begins %q ends at once and its text is lexed as statement tokens", skipped, len(opener), opener[len(opener)-overlap:], opener+closer[overlap:]))
 			}
 		}
